@@ -258,6 +258,7 @@ def run(ctx, rep) -> None:
     par = _parents(fn)
     body = fn.body
     idx = {}
+    overlay_prefilter = None
     for i, s in enumerate(body):
         t = norm(s)
         if isinstance(s, ast.Assign) and norm(s.targets[0]) == "ancestor_outputs" and "get_merged_ancestor_outputs(stage.execution.id, stage.ref_id)" in t:
@@ -268,6 +269,13 @@ def run(ctx, rep) -> None:
             idx["merged"] = i
         if isinstance(s, ast.For) and norm(s.iter) == "stage.context.items()":
             idx["overlay"] = i
+        # the overlay may also run over a pre-filtered copy: own = {k: v for k, v in stage.context.items() if <keep>}; for ... in own.items()
+        if isinstance(s, ast.For) and isinstance(s.iter, ast.Call) and isinstance(s.iter.func, ast.Attribute) and s.iter.func.attr == "items" and isinstance(s.iter.func.value, ast.Name):
+            src = [a for a in body[:i] if isinstance(a, ast.Assign) and norm(a.targets[0]) == s.iter.func.value.id and isinstance(a.value, ast.DictComp)
+                   and norm(a.value.generators[0].iter) == "stage.context.items()"]
+            if src:
+                idx["overlay"] = i
+                overlay_prefilter = src[-1].value.generators[0]
         if isinstance(s, ast.Assign) and norm(s.targets[0]) == "stage.context" and norm(s.value) == "merged":
             idx["store"] = i
     need = ["anc", "red", "merged", "overlay", "store"]
@@ -281,6 +289,7 @@ def run(ctx, rep) -> None:
         all_up = bool(bo) and isinstance(bo[0].value, ast.ListComp) and norm(bo[0].value.elt) == "u.outputs" and norm(bo[0].value.generators[0].iter) == "upstreams" and \
             all(norm(c) in ("u is not None and u.outputs", "u.outputs", "u is not None") for c in bo[0].value.generators[0].ifs)
         rep.check(ok and all_up, "C16.R5", "_plan_stage feeds the reducers every upstream's outputs and lets the result override the ancestor merge", "branch_outputs = [u.outputs for u in upstreams if u.outputs]; ancestor_outputs.update(apply_output_reducers(...))", ps.file, red.lineno, disc="reducer-input")
+    rec_key = None
     if "overlay" in idx:
         ov = body[idx["overlay"]]
         ifs = [s for s in ov.body if isinstance(s, ast.If)]
@@ -289,9 +298,10 @@ def run(ctx, rep) -> None:
         rep.check(any(_list_merge_shape(i, "merged") for i in ifs), "C16.R2", "own-context overlay: own non-list value wins, lists concatenate (same rule as the ancestor merge)", "sibling agreement with get_merged_ancestor_outputs", ps.file, ov.lineno, disc="overlay-shape")
         # ---- R4: inherited keys ----------------------------------------------------------------------------------
         guards = [i for i in ifs if isinstance(i.body[-1], ast.Continue) and norm(i.test) != "key in reducers"]
+        guard_tests = [i.test for i in guards] + (list(overlay_prefilter.ifs) if overlay_prefilter is not None else [])
         rec_key = None
-        for i in guards:
-            for nm in [n.id for n in ast.walk(i.test) if isinstance(n, ast.Name)]:
+        for gt in guard_tests:
+            for nm in [n.id for n in ast.walk(gt) if isinstance(n, ast.Name)]:
                 d = [s for s in body if isinstance(s, ast.Assign) and norm(s.targets[0]) == nm]
                 for s in d:
                     for c in _calls(s.value, "get"):
